@@ -30,7 +30,8 @@ func init() {
 			"sub-second parts and non-UTC zones, all 2^9 key-usage masks, EKU subsets + unknown EKU OIDs, basic constraints x path length {-1,0,1,5} x MaxPathLenZero, SKID/AKID, DNS/email/IP SANs " +
 			"(IPv4 in 4- and 16-byte form, IPv6), OCSP / issuer URLs, CRL distribution points, policy OIDs, name constraints (DNS, email, IP ranges, directory names, critical flag), " +
 			"extra extensions (unknown OIDs and OIDs overriding generated ones), SignatureAlgorithm 0 or any valid for the signer) x subject key RSA/ECDSA/Ed25519 x signer key RSA/ECDSA P-224..P-521/Ed25519 " +
-			"x self-signed / issued from a parsed parent / issued from an unparsed parent; non-trivial = at least three optional fields set and the certificate was created; distinct by the template description",
+			"x self-signed / issued from a parsed parent / issued from an unparsed parent; plus reuse histories: one template (and one hand-built parent) used for 2-4 creations with one field " +
+			"edited between them (subject, parent subject, SANs, key usage, validity, serial, SKID, extra extensions), expectation = the harness's own model of the caller's values at that call; non-trivial = at least three optional fields set and the certificate was created; distinct by the template description",
 		MinNontrivial:         1100,
 		MinNontrivialThorough: 25000,
 		Shards:                16,
@@ -1085,6 +1086,11 @@ func runC04(c *core.Ctx) {
 			aliasTemplate(r, cs)
 		}
 		runCertCase(c, r, fmt.Sprintf("c04-%d-%d", c.Shard, i), cs)
+	}
+	nh := c.PerShard(c.Pick(480, 12000))
+	hr := c.SubRng("histories")
+	for i := 0; i < nh; i++ {
+		runCertHistory(c, hr, i)
 	}
 	if c.Shard == 0 {
 		probeUnmappedEKU(c)
